@@ -89,10 +89,13 @@ func (r *TrafficRoutingReconciler) Reconcile(ctx context.Context, req ctrl.Reque
 	}
 	klog.Infof("Begin to reconcile TrafficRouting %v", util.DumpJSON(tr))
 
-	// handle finalizer
-	err = r.handleFinalizer(tr)
-	if err != nil {
-		return ctrl.Result{}, err
+	// handle finalizer. For an object being deleted the finalizer is removed by the Terminating
+	// phase below, after the traffic routing has been finalised, not before.
+	if tr.DeletionTimestamp.IsZero() {
+		err = r.handleFinalizer(tr)
+		if err != nil {
+			return ctrl.Result{}, err
+		}
 	}
 	newStatus := tr.Status.DeepCopy()
 	if newStatus.Phase == "" {
